@@ -24,11 +24,21 @@ def serialize_prelude(prelude):
 
 
 def extract_color_from_decl(decl):
-    return tinycss2.serialize(decl.value).strip()
+    # Comments inside a value are not part of the value
+    return tinycss2.serialize([t for t in decl.value if t.type != "comment"]).strip()
 
 
 def update_decl_value(decl, new_value_str):
-    decl.value = tinycss2.parse_component_value_list(new_value_str)
+    # Replace the value itself but keep comments (and spacing) written around it
+    old = decl.value
+    start, end = 0, len(old)
+    while start < end and old[start].type in ("whitespace", "comment"):
+        start += 1
+    while end > start and old[end - 1].type in ("whitespace", "comment"):
+        end -= 1
+    decl.value = (
+        old[:start] + tinycss2.parse_component_value_list(new_value_str) + old[end:]
+    )
 
 
 def collect_variables(rules):
